@@ -8,7 +8,7 @@ import tx
 from impl import trees, transform, transformconst, quiet, clone, tag_uids, mk_leaf, mk_node
 
 ID = "C15"
-MODULE = "TT.Props.C15"
+MODULE = ['TT.Props.C15', 'TT.Props.C15More']
 RULE = ("random well-formed trees with edge labels drawn so that 0, 1 or several HD/NK occur; for rule-based marking "
         "every parent category of both presets x child category sequences (length 1..4) over the listed categories "
         "plus unlisted ones, plain / upper-case / decorated (NP-SBJ-1, VP=2); unknown preset and missing/both rule "
